@@ -40,13 +40,9 @@ class MultiSession(Capability, list[CapabilityCode]):
         )
 
     def extract_capability_bytes(self) -> list[bytes]:
-        # can probably be written better
-        rs: list[bytes] = [
-            bytes([0]),
-        ]
-        for v in self:
-            rs.append(bytes([v]))
-        return rs
+        # draft-ietf-idr-bgp-multisession: ONE capability whose value is the flags octet followed by the
+        # capability codes the sessions are grouped on (one element of this list is one capability TLV)
+        return [bytes([0]) + bytes(int(v) for v in self)]
 
     @classmethod
     def unpack_capability(cls, instance: Capability, data: Buffer, capability: CapabilityCode) -> Capability:  # pylint: disable=W0613
@@ -54,4 +50,8 @@ class MultiSession(Capability, list[CapabilityCode]):
         if instance._seen:
             log.debug(lazymsg('capability.multisession.duplicate'), 'parser')
         instance._seen = True
+        # the flags octet, then the session identifiers
+        for code in bytes(data[1:]):
+            if code not in instance:
+                instance.append(CapabilityCode(code))
         return instance
